@@ -36,7 +36,7 @@ func runFamilies(e *env, prop, tag string, fam func(r *rng.R, id int) *famOut, b
 	e.rep.Eval(len(res.Calls) + res.GenCompared)
 	for k, v := range res.GenOutcomes {
 		for i := 0; i < v; i++ {
-			e.rep.Count("gen." + k)
+			e.rep.Count(tag + ".gen." + k)
 		}
 	}
 	for i, c := range res.Calls {
@@ -45,7 +45,7 @@ func runFamilies(e *env, prop, tag string, fam func(r *rng.R, id int) *famOut, b
 		if j := strings.Index(head, " "); j > 0 {
 			head = head[:j]
 		}
-		e.rep.Count("call." + strings.Trim(head, "()"))
+		e.rep.Count(tag + ".call." + strings.Trim(head, "()"))
 		if c.Impl != c.Model {
 			class := ""
 			if classify != nil {
